@@ -147,6 +147,13 @@ def _gen_neighbours(r, w):
 def gen_plan(r, index, tier):
     w, cfg = common.gen_stream_workload(r, max_values=3, small=True, force_codec='ber', allow_f2=False, variants=False,
                                         constructed_default=r.random() < 0.4, constraints=r.random() < 0.4)
+    if r.random() < 0.12:
+        # open types (and the caller-supplied openTypes= configuration) are rare in random descriptors
+        for _ in range(12):
+            if w['open_types']:
+                break
+            w, cfg = common.gen_stream_workload(r, max_values=3, small=True, force_codec='ber', allow_f2=False,
+                                                variants=False)
     desc = w['desc']
     nv = len(w['values'])
     codecs = _codecs_for(desc)
@@ -234,6 +241,7 @@ def gen_plan(r, index, tier):
         sched['switches'] = sw
     return {'check': ID, 'workload': {'desc': desc, 'values': w['values'], 'open_types': w['open_types']},
             'neighbours': neighbours, 'tasks': tasks, 'schedule': sched,
+            'open_types_dict': (r.choice(['full', 'partial', 'partial', 'empty']) if (w['open_types'] and r.random() < 0.6) else None),
             'logging': (r.choice(['all', 'all', 'decoder', 'encoder', 'toggle']) if r.random() < 0.3 else False),
             'isolation': 'fork' if r.random() < 0.02 else 'inproc'}
 
@@ -249,6 +257,36 @@ class Ctx(object):
         # would already be "a history of other calls" on the schema (constraint objects see them)
         self.values = [U.build_value(self.schema, wdesc, v) if (only is None or i in only) else None
                        for i, v in enumerate(values)]
+        self.open_dict = None
+        self.open_snapshot = None
+
+    def make_open_dict(self, how):
+        """A caller-supplied openTypes= mapping (configuration shared by the calls of a run): the entries of
+        the first open-type field's own map, all of them or all but one, or an empty dict."""
+        entries = _open_entries(self.desc)
+        if how == 'empty' or not entries:
+            self.open_dict = {}
+        else:
+            if how == 'partial' and len(entries) > 1:
+                entries = entries[:-1]
+            self.open_dict = dict((key, U.build_schema(d)) for key, d in entries)
+        self.open_snapshot = sorted((repr(k), id(v)) for k, v in self.open_dict.items())
+
+    def open_dict_moved(self):
+        return self.open_dict is not None and \
+            sorted((repr(k), id(v)) for k, v in self.open_dict.items()) != self.open_snapshot
+
+
+def _open_entries(desc):
+    if desc['k'] in ('SEQ', 'SET'):
+        for f in desc['fields']:
+            if f.get('open'):
+                return [(key, d) for key, d in f['open']['map']]
+    for c in U.children(desc):
+        e = _open_entries(c)
+        if e:
+            return e
+    return []
 
 
 def _workloads(plan):
@@ -284,10 +322,17 @@ def _restart():
         _RESTARTS['discarded'] += 1
 
 
-def _dec_kw(plan, task=None):
+def _dec_kw(plan, task=None, ctx=None):
     if task is not None and task.get('nb') is not None:
         return {}
-    return {'decodeOpenTypes': True} if plan['workload'].get('open_types') else {}
+    if not plan['workload'].get('open_types'):
+        return {}
+    kw = {'decodeOpenTypes': True}
+    if plan.get('open_types_dict') and ctx is not None:
+        if ctx.open_dict is None:
+            ctx.make_open_dict(plan['open_types_dict'])
+        kw['openTypes'] = ctx.open_dict
+    return kw
 
 
 def _outcome_exc(e):
@@ -323,7 +368,7 @@ class OneShot(object):
                 data = t.get('bad_hex') or self.encs.get(_ekey(t, t['v']))
                 if data is None:
                     return ['skip', 'no-encoding']
-                v, rest = dec.decode(bytes.fromhex(data), asn1Spec=self.ctx.schema, **_dec_kw(self.plan, t))
+                v, rest = dec.decode(bytes.fromhex(data), asn1Spec=self.ctx.schema, **_dec_kw(self.plan, t, self.ctx))
                 self.result_obj = v
                 return ['ok', U.jsonable(U.absval(v)), bytes(rest).hex()]
             if t['t'] == 'print':
@@ -373,7 +418,7 @@ class StreamTask(object):
             parts = [encs.get(_ekey(task, v)) for v in task['vs']]
             self.ok = all(x is not None for x in parts)
             self.content = b''.join(bytes.fromhex(x) for x in parts) if self.ok else b''
-            spec, kw = ctx.schema, _dec_kw(plan, task)
+            spec, kw = ctx.schema, _dec_kw(plan, task, ctx)
         self.st = streams.SimFile(self.content, ti, trace)
         self.cons = W.Consumer(dec, self.st, spec, kw, cid=ti, trace=trace)
         self.pending = [list(s) for s in task['steps']]
@@ -800,6 +845,8 @@ def execute(plan):
         for i, v in enumerate(ctx.values):
             if U.snapshot(v) != snap_values[i]:
                 raise W.Violation('input-value-changed', where=where, value=i)
+        if ctx.open_dict_moved():
+            raise W.Violation('configuration-changed', where=where, what='caller-supplied openTypes mapping')
         for k, c in enumerate(ctxs[1:]):
             if U.snapshot(c.schema) != snap_nb[k][0]:
                 raise W.Violation('schema-changed', where=where, neighbour=k)
@@ -918,6 +965,8 @@ def execute(plan):
     ctr['mode.%s' % mode] = 1
     ctr['fault.process_restart'] = _RESTARTS['n'] - r0['n']
     ctr['fault.process_restart.discarded_state'] = _RESTARTS['discarded'] - r0['discarded']
+    if plan.get('open_types_dict'):
+        ctr['config.openTypes.%s' % plan['open_types_dict']] = 1
     if plan.get('neighbours'):
         ctr['probe.neighbour_types'] = len(plan['neighbours'])
         ctr['task.on_neighbour'] = len([t for t in plan['tasks'] if t.get('nb') is not None])
